@@ -1,5 +1,6 @@
 import Mdsort.Proofs.Lex
 import Mdsort.Proofs.LexLiteral
+import Mdsort.Proofs.LexFuel
 import Mdsort.Proofs.World
 import Mdsort.Proofs.ConfErrors
 import Mdsort.Proofs.ConfRT5
@@ -30,6 +31,32 @@ theorem C14_lexer_total (pflag sflag afterMacro : Bool) (input : Bytes) :
     (∃ pre, input = pre ++ r.rest) ∧ (r.tok ≠ .eof → r.rest.length < input.length) :=
   Proofs.lex_progress pflag sflag afterMacro input
 
+/-- The budgets inside the lexer model are never the reason for a result (audit: the exhausted cases return "unterminated",
+the digits / flags read so far, or END OF INPUT WITHOUT A DIAGNOSTIC - the last would silently accept a truncated file).
+For every helper, any two budgets larger than the input give the same result; `lex1` calls `collect` and `patFlags` with
+`length + 1`, `lexDigits` with `length + 1` of what it passes, and re-enters after a comment (`lex1Aux`) with the length
+of the whole input on a strictly shorter rest - so replacing any of these budgets by a larger one changes nothing. -/
+theorem C14_lexer_fuel_irrelevant :
+    (∀ (d : UInt8) (f1 f2 : Nat) (s acc : Bytes), s.length < f1 → s.length < f2 → collect d f1 s acc = collect d f2 s acc) ∧
+    (∀ (f1 f2 : Nat) (s : Bytes) (i l u : Bool) (e : Nat), s.length < f1 → s.length < f2 →
+      patFlags f1 s i l u e = patFlags f2 s i l u e) ∧
+    (∀ (f1 f2 : Nat) (s : Bytes) (n : Nat) (o : Bool) (e : Nat), s.length < f1 → s.length < f2 →
+      lexDigits f1 s n o e = lexDigits f2 s n o e) ∧
+    (∀ (pf sf am : Bool) (f1 f2 : Nat) (s : Bytes), s.length < f1 → s.length < f2 →
+      lex1.lex1Aux pf sf am s f1 = lex1.lex1Aux pf sf am s f2) :=
+  ⟨Proofs.collect_fuel, Proofs.patFlags_fuel, Proofs.lexDigits_fuel, Proofs.lex1Aux_fuel⟩
+
+/-- Non-vacuity of `C14_tokens_read_back` and of the budgets: a keyword of the regenerated table before a brace, a string
+with an escaped quote, and a token behind 3 comment lines (the re-entry after a comment) - with the budget the model uses
+and with a budget of 1000. -/
+example :
+    ("add-header", "ADDHEADER") ∈ Gen.keywords ∧
+    lex1 false false false (ofString "add-header{") = { tok := .keyword "ADDHEADER", rest := [123], errors := 0 } ∧
+    lex1 false false false ([34] ++ Proofs.escapeQuote (ofString "a\"b") ++ [34, 32]) = { tok := .str (ofString "a\"b"), rest := [32], errors := 0 } ∧
+    lex1 false false false (ofString "#a\n #b\n#c\n  match") = { tok := .keyword "MATCH", rest := [], errors := 0 } ∧
+    lex1.lex1Aux false false false (ofString " #b\n#c\n  match") 1000 = { tok := .keyword "MATCH", rest := [], errors := 0 } := by
+  decide +kernel
+
 /-- Rejected as a whole: when the configuration is rejected (or unreadable) the run is an error and
 touches nothing but the configuration file, under every fault plan - no maildir is opened, no
 message examined, no command run, no file changed, whatever valid parts the file has. -/
@@ -41,8 +68,10 @@ theorem C14_reject_whole (env : PEnv) (orc : EvalOracles) (conf : List ConfBlock
      ∃ h, Proofs.callsOf plan (mainP env orc false conf files input) w = [.fopen env.confpath, .fclose h]) :=
   Proofs.bad_config_only_reads_config env orc conf files input w plan
 
-/-- Acceptance at token level: every keyword of the regenerated table, every printable string and
-every age literal the grammar can generate reads back as the token it was printed from. -/
+/-- Acceptance at token level: every keyword of the regenerated table (`Gen.keywords`, from parse.y: renaming a keyword
+there changes what this says) followed by anything that cannot continue a word, and every non-empty string without
+NUL, not ending in a backslash and shorter than the lexeme buffer, written between quotes with `"` escaped, reads back as
+the token it was printed from.  (Integer literals: `C14_int_literals`; units: `C15_age_literal_tokens`.) -/
 theorem C14_tokens_read_back :
     (∀ (sflag : Bool) (kw tokname : String) (rest : Bytes), (kw, tokname) ∈ Gen.keywords →
       (∀ c, rest.head? = some c → isKwChar c = false) →
